@@ -48,6 +48,12 @@ def one(rng, name, pairs, forge):
 
 def cases(rng, tier):
     out = []
+    for pairs in (0, 1, 2, 16, 127):            # the composer's constant witnesses as operands
+        for name in ("and", "xor"):
+            for a, b in (("#1", "#1"), ("#0", "#1"), ("#1", "#0")):
+                p = Prog(); p.tags = [name, "constant-handle"]
+                p.logic(name, pairs, a, b)
+                out.append(p.case())
     reps = 1 if tier == "quick" else 6
     for pairs in range(0, 128):
         for name in ("and", "xor"):
